@@ -143,6 +143,12 @@ std::string checkGroupCopies(Tree& tree, const FmmCase& c, probe::Ctx& ctxModel,
     const Config config = fh::makeConfig<Real, Dim>(c);
     TbfGroupKernelInterface<SI> wrapper(config);
     const SI& sp = tree.getSpacialSystem();
+    auto emptyBuf = [](size_t n, std::vector<std::vector<unsigned char>>& store) -> unsigned char* {
+        store.emplace_back(n + 64, (unsigned char)0xAB);
+        unsigned char* q = store.back().data();
+        while(reinterpret_cast<uintptr_t>(q) % 16) ++q;
+        return q;
+    };
     auto copyBuf = [](const unsigned char* p, size_t n, std::vector<std::vector<unsigned char>>& store) -> unsigned char* {
         store.emplace_back(n + 64);
         unsigned char* q = store.back().data();
@@ -154,11 +160,24 @@ std::string checkGroupCopies(Tree& tree, const FmmCase& c, probe::Ctx& ctxModel,
     for(int l = 0 ; l < H ; ++l){
         for(auto& g : tree.getCellGroupsAtLevel(l)){
             nbGroups += 1;
+            // mode 0: the buffers hold the bytes when the view is constructed; mode 1 (deferred, as the StarPU/CUDA paths do): the view is
+            // constructed on buffers that are filled afterwards, then initMemoryBlockHeader() re-derives the blocks from the trailers
+            for(int mode = 0 ; mode < 2 ; ++mode){
             std::vector<std::vector<unsigned char>> store;
             auto ps = g.getDataPtrsAndSizes();
             std::array<std::pair<unsigned char*, size_t>, 3> cp;
-            for(size_t k = 0 ; k < 3 ; ++k) cp[k] = std::make_pair(copyBuf(ps[k].first, ps[k].second, store), ps[k].second);
-            CellGroup view(cp);
+            std::unique_ptr<CellGroup> viewPtr;
+            if(mode == 0){
+                for(size_t k = 0 ; k < 3 ; ++k) cp[k] = std::make_pair(copyBuf(ps[k].first, ps[k].second, store), ps[k].second);
+                viewPtr.reset(new CellGroup(cp));
+            }
+            else{
+                for(size_t k = 0 ; k < 3 ; ++k) cp[k] = std::make_pair(emptyBuf(ps[k].second, store), ps[k].second);
+                viewPtr.reset(new CellGroup(cp, false));
+                for(size_t k = 0 ; k < 3 ; ++k) if(ps[k].second) std::memcpy(cp[k].first, ps[k].first, ps[k].second);
+                viewPtr->initMemoryBlockHeader();
+            }
+            CellGroup& view = *viewPtr;
             if(view.getNbCells() != g.getNbCells() || view.getStartingSpacialIndex() != g.getStartingSpacialIndex() || view.getEndingSpacialIndex() != g.getEndingSpacialIndex()) return "cell group copy: header differs";
             for(long i = 0 ; i < g.getNbCells() ; ++i){
                 if(view.getCellSpacialIndex(i) != g.getCellSpacialIndex(i) || view.getCellBoxCoord(i) != g.getCellBoxCoord(i)) return "cell group copy: symbolic data of cell " + std::to_string(i) + " differs";
@@ -169,6 +188,7 @@ std::string checkGroupCopies(Tree& tree, const FmmCase& c, probe::Ctx& ctxModel,
                 if(a < cp[2].first || a + sizeof(gf::Val) > cp[2].first + cp[2].second) return "cell group copy: local accessor leaves its buffer";
                 if(view.getElementFromSpacialIndex(g.getCellSpacialIndex(i)) != std::optional<long int>(i)) return "cell group copy: lookup differs";
             }
+            }
         }
     }
     // particle groups + operators on copies
@@ -176,11 +196,22 @@ std::string checkGroupCopies(Tree& tree, const FmmCase& c, probe::Ctx& ctxModel,
     auto& lgs = tree.getLeafGroups();
     for(size_t ig = 0 ; ig < pgs.size() ; ++ig){
         nbGroups += 1;
+        for(int mode = 0 ; mode < 2 ; ++mode){
         std::vector<std::vector<unsigned char>> store;
         auto pp = pgs[ig].getDataPtrsAndSizes();
         std::array<std::pair<unsigned char*, size_t>, 2> cpp;
-        for(size_t k = 0 ; k < 2 ; ++k) cpp[k] = std::make_pair(copyBuf(pp[k].first, pp[k].second, store), pp[k].second);
-        LeafGroup pview(cpp);
+        std::unique_ptr<LeafGroup> pviewPtr;
+        if(mode == 0){
+            for(size_t k = 0 ; k < 2 ; ++k) cpp[k] = std::make_pair(copyBuf(pp[k].first, pp[k].second, store), pp[k].second);
+            pviewPtr.reset(new LeafGroup(cpp));
+        }
+        else{
+            for(size_t k = 0 ; k < 2 ; ++k) cpp[k] = std::make_pair(emptyBuf(pp[k].second, store), pp[k].second);
+            pviewPtr.reset(new LeafGroup(cpp, false));
+            for(size_t k = 0 ; k < 2 ; ++k) if(pp[k].second) std::memcpy(cpp[k].first, pp[k].first, pp[k].second);
+            pviewPtr->initMemoryBlockHeader();
+        }
+        LeafGroup& pview = *pviewPtr;
         if(pview.getNbLeaves() != pgs[ig].getNbLeaves() || pview.getNbParticles() != pgs[ig].getNbParticles()) return "particle group copy: header differs";
         for(long i = 0 ; i < pgs[ig].getNbLeaves() ; ++i){
             if(pview.getLeafSpacialIndex(i) != pgs[ig].getLeafSpacialIndex(i) || pview.getNbParticlesInLeaf(i) != pgs[ig].getNbParticlesInLeaf(i) || pview.getLeafBoxCoord(i) != pgs[ig].getLeafBoxCoord(i)) return "particle group copy: leaf header differs";
@@ -222,6 +253,9 @@ std::string checkGroupCopies(Tree& tree, const FmmCase& c, probe::Ctx& ctxModel,
         if(std::memcmp(ccp[1].first, cps[1].first, cps[1].second) != 0) return "operators on a copied group give different multipoles";
         if(std::memcmp(ccp[2].first, cps[2].first, cps[2].second) != 0) return "operators on a copied group give different locals";
         if(cpp[1].second && std::memcmp(cpp[1].first, pp[1].first, pp[1].second) != 0) return "operators on a copied group give different particle results";
+        // the operators above changed the original group as well (k1): restore it from the copy of the first pass is not needed - both
+        // passes apply the same operators to original and copy, and only equality of the two is asserted
+        }
     }
     (void)ctxModel;
     return "";
